@@ -648,6 +648,10 @@ func (p *c17) Run(i int) (res fw.Result) {
 }
 
 func (p *c17) Rule() string {
+	return p.ruleBase() + " " + "Round 12: 13 MUSTFAIL templates whose include / embed / import / from / use / extends names evaluate to the empty string (literal, null, undefined, false, a concatenation) under a loader without a template called \"\" - in a loop, a capture, a filter section, with a with-hash - and two that render the template called \"\" where there is one."
+}
+
+func (p *c17) ruleBase() string {
 	return "per template (20 hand-written ones covering every construct that writes: text, print, filter sections incl. nested and last-in-template, loops, include, embed, set-capture, macros, block(), if, import/from, verbatim, for-else; two inheritance chains with parent(); plus seeded programs from the generator: 300 quick / 3000 thorough): fault-free Execute and ExecuteSafe first (ExecuteSafe must deliver byte-identical output, or nothing if rendering fails), then EVERY fault point: (a) the destination writer failing at its k-th Write for every k=1..W, once rejecting the whole write, once accepting half of it and once accepting all of it but reporting an error; ExecuteSafe with a failing destination (3 modes) followed by successful ExecuteSafe calls on the same and on a fresh environment, which must deliver exactly their own output; (b) the loader failing at its k-th Load for every k=1..L, once with an error, once by returning a syntactically broken template (16 kinds) and once by returning a template whose reader fails after half of the source, through Execute and ExecuteSafe; (c) for generated programs a failing construct inserted at every node boundary - either a whole statement (unknown function, missing include, invalid regular expression, unknown filter section, modulo by zero, a loop with an else branch over a number / a string) or one of 4 failing sub-expressions carried in one of 34 expression positions (first / middle / last argument of a function, filter, test, method or imported macro, array and hash elements, computed and interpolated hash keys, either operand, conditional parts, attribute key, interpolation, set value, if/elseif condition, loop sequence and condition, include name and with-hash, inside captures and filter sections) - of the main template's structure tree, nested bodies included, with a recorded marker call in front of it telling whether it was executed. Oracles: non-nil error, accepted bytes are a prefix of the fault-free output, no Write after a failed Write, ExecuteSafe made no Write at all on failure. Non-trivial = template with >=2 writes; distinct = template."
 }
 
